@@ -102,6 +102,10 @@ pub(crate) const OPTION_SKIPPED_EMPTY_MATCH: u32 = 1 << 1;
 // TODO: make configurable
 const MAX_STACK: usize = 1_000_000;
 
+#[cfg(feature = "verif-hooks")]
+#[path = "vm_verif.rs"]
+pub mod verif;
+
 /// Instruction of the VM.
 #[derive(Clone, Derivative)]
 #[derivative(Debug)]
@@ -250,6 +254,8 @@ struct State {
     max_stack: usize,
     #[allow(dead_code)]
     options: u32,
+    #[cfg(feature = "verif-hooks")]
+    verif: verif::Monitor,
 }
 
 // Each element in the stack conceptually represents the entire state
@@ -270,6 +276,8 @@ impl State {
             explicit_sp: n_saves,
             max_stack,
             options,
+            #[cfg(feature = "verif-hooks")]
+            verif: verif::Monitor::new(),
         }
     }
 
@@ -279,6 +287,8 @@ impl State {
             let nsave = self.nsave;
             self.stack.push(Branch { pc, ix, nsave });
             self.nsave = 0;
+            #[cfg(feature = "verif-hooks")]
+            verif::on_push(self);
             self.trace_stack("push");
             Ok(())
         } else {
@@ -294,6 +304,8 @@ impl State {
         }
         let Branch { pc, ix, nsave } = self.stack.pop().unwrap();
         self.nsave = nsave;
+        #[cfg(feature = "verif-hooks")]
+        verif::on_pop(self);
         self.trace_stack("pop");
         (pc, ix)
     }
@@ -313,6 +325,8 @@ impl State {
         });
         self.nsave += 1;
         self.saves[slot] = val;
+        #[cfg(feature = "verif-hooks")]
+        verif::on_save(self);
 
         #[cfg(feature = "std")]
         if self.options & OPTION_TRACE != 0 {
@@ -338,6 +352,8 @@ impl State {
             self.save(sp, val);
         }
         self.save(explicit_sp, sp + 1);
+        #[cfg(feature = "verif-hooks")]
+        verif::on_aux_push(self);
     }
 
     // pop a value from the explicit stack
@@ -346,6 +362,8 @@ impl State {
         let sp = self.get(explicit_sp) - 1;
         let result = self.get(sp);
         self.save(explicit_sp, sp);
+        #[cfg(feature = "verif-hooks")]
+        verif::on_aux_pop(self);
         result
     }
 
@@ -445,12 +463,16 @@ pub(crate) fn run(
     if option_flags & OPTION_TRACE != 0 {
         println!("pos\tinstruction");
     }
+    #[cfg(feature = "verif-hooks")]
+    let verif_partners = verif::partners(prog);
     let mut backtrack_count = 0;
     let mut pc = 0;
     let mut ix = pos;
     loop {
         // break from this loop to fail, causes stack to pop
         'fail: loop {
+            #[cfg(feature = "verif-hooks")]
+            verif::on_insn(&mut state);
             #[cfg(feature = "std")]
             if option_flags & OPTION_TRACE != 0 {
                 println!("{}\t{} {:?}", ix, pc, prog.body[pc]);
@@ -668,10 +690,18 @@ pub(crate) fn run(
                 Insn::BeginAtomic => {
                     let count = state.backtrack_count();
                     state.stack_push(count);
+                    #[cfg(feature = "verif-hooks")]
+                    verif::on_begin_atomic(&mut state, pc);
                 }
                 Insn::EndAtomic => {
+                    #[cfg(feature = "verif-hooks")]
+                    verif::on_end_atomic(&mut state, pc, &verif_partners);
                     let count = state.stack_pop();
+                    #[cfg(feature = "verif-hooks")]
+                    let verif_probe = verif::before_cut(&mut state, count);
                     state.backtrack_cut(count);
+                    #[cfg(feature = "verif-hooks")]
+                    verif::after_cut(&mut state, count, verif_probe);
                 }
                 Insn::Delegate {
                     ref inner,
@@ -679,6 +709,8 @@ pub(crate) fn run(
                     start_group,
                     end_group,
                 } => {
+                    #[cfg(feature = "verif-hooks")]
+                    verif::on_delegate(&mut state);
                     let input = Input::new(s).span(ix..s.len()).anchored(Anchored::Yes);
                     if start_group == end_group {
                         // No groups, so we can use faster methods
@@ -721,6 +753,8 @@ pub(crate) fn run(
         }
 
         backtrack_count += 1;
+        #[cfg(feature = "verif-hooks")]
+        verif::on_backtrack(&mut state, backtrack_count);
         if backtrack_count > options.backtrack_limit {
             return Err(Error::RuntimeError(RuntimeError::BacktrackLimitExceeded));
         }
